@@ -136,6 +136,28 @@ def run(res, tier, seed):
             top = obs[mm.id]
             cases.append((lambda it, f=dump_in, d=d, obs=obs, top=top: f"({dict_term(d, it)}, {f(it)}, {dict_term(obs, it)}, ({z(top[0])}, {z(top[1])}))", (ast, d, env)))
             res.sample({"model": repr(m), "interpretation": {k: list(v) for k, v in d.items()}, "result": {k: list(v) for k, v in obs.items()}})
+    # sums and thresholds beyond 2^53 (all well inside 64 bits): integers that a double cannot tell apart
+    brng = random.Random(seed * 7951 + 3)
+    for _ in range(30 if tier == "quick" else 300):
+        Mb = brng.choice([2 ** 53, 2 ** 53, 2 ** 60, 3 * 2 ** 59])
+        kids = [{"k": "var", "id": "x", "b": [0, Mb + 16]}, {"k": "var", "id": "y", "b": [0, 1]}] + ([{"k": "str", "id": "z"}] if brng.random() < 0.5 else [])
+        thr = Mb + brng.randint(0, 6)
+        node = brng.choice([{"k": "AtLeast", "v": thr, "s": None, "ch": kids, "id": "A"}, {"k": "AtMost", "v": thr, "ch": kids, "id": "A"},
+                            {"k": "AtLeast", "v": -thr, "s": -1, "ch": kids, "id": "A"}])
+        ast = node if brng.random() < 0.6 else {"k": brng.choice(["Any", "All"]), "ch": [node, {"k": "str", "id": "w"}], "id": "T"}
+        env = {"x": Mb + brng.randint(-2, 8), "y": brng.randint(0, 1), "z": brng.randint(0, 1), "w": brng.randint(0, 1)}
+        try:
+            m = build(ast)
+            if m.errors():
+                continue
+        except Exception:
+            continue
+        env = {l.id: env[l.id] for l in leaves_of(m)}
+        d = {k: (v, v) for k, v in env.items()}
+        res.count("beyond_2^53")
+        bad = oracle_case(res, ast, d, env, brng)
+        if bad:
+            res.violation("oracle", "evaluate_propositions disagrees with the arithmetic truth function: " + bad["problem"] + f" on {m!r}", bad)
     n, failing, errs = run_case_shards("C03", "evalprops", "", "interp * prop * list (ident * (Z * Z)) * (Z * Z)", "check_evalprops", cases)
     res.corr_cases += n; res.evaluations += n
     for e in errs:
